@@ -132,7 +132,7 @@ pub fn make_store(cs: &[Content]) -> MemStore {
     MemStore::new(
         cs.iter()
             .enumerate()
-            .map(|(i, c)| tirb::utxo(tirb::utxo_ref(i as u8 + 1, i as u32), &addr(c.addr), assets_of(&c.amt)))
+            .map(|(i, c)| tirb::utxo(ref_at(i), &addr(c.addr), assets_of(&c.amt)))
             .collect(),
     )
 }
@@ -156,7 +156,8 @@ pub fn ref_at(i: usize) -> UtxoRef {
     if i == usize::MAX {
         dangling()
     } else {
-        tirb::utxo_ref(i as u8 + 1, i as u32)
+        // neighbours are outputs of one transaction (same txid, indices i and i + 1): a UTxO is its txid AND its index
+        tirb::utxo_ref((i / 2) as u8 + 1, i as u32)
     }
 }
 
@@ -537,7 +538,7 @@ fn run_window(total: usize, with_token: bool, many: bool) -> Outcome {
             let utxos = cs
                 .iter()
                 .enumerate()
-                .map(|(i, c)| tirb::utxo(tirb::utxo_ref((i % 200) as u8 + 1, i as u32), &addr(c.addr), assets_of(&c.amt)))
+                .map(|(i, c)| tirb::utxo(ref_at(i), &addr(c.addr), assets_of(&c.amt)))
                 .collect();
             let store = MemStore::new(utxos);
             let sel = run_query(&store, &q);
